@@ -32,6 +32,16 @@ def _case(draw):
         # a plain value marked unsafe (tag or metadata) that a call depends on: the mark is what makes the call refuse to run
         val = tdoc.sc(draw(st.sampled_from([7, 'txt', 2.5, True, None])), unsafe=True, mdstyle=draw(st.sampled_from(['short', 'braces', 'hex'])))
         doc['items'] = [kv for kv in doc['items'] if kv[0] not in ('ua', 'uc')] + [['ua', val], ['uc', tdoc.mp([('v', tdoc.raw('ua', '!xref'))], flow=True, tag='!call:vfrec.call_90')]]
+    if not structural and draw(st.integers(0, 4)) == 0:
+        # data written below an !unsafe mapping and repeated, through a yaml alias or a merge key, at a place that is safe: the copy stays
+        # unsafe (which is what makes the call that depends on it refuse to run) - the dumped text has to say so
+        data = draw(st.sampled_from([tdoc.sc(5), tdoc.mp([('k', tdoc.sc(1))], flow=True), tdoc.sq([tdoc.sc(2)], flow=True)]))
+        data = dict(data, anchor='un')
+        al = {'t': 'alias', 'name': 'un'}
+        copy_place = tdoc.mp([('<<', al), ('j', tdoc.sc(2))]) if data['t'] == 'map' and draw(st.booleans()) else tdoc.mp([('y', al)])
+        doc['items'] = [kv for kv in doc['items'] if kv[0] not in ('ub', 'uy', 'uz')] + [
+            ['ub', tdoc.mp([('x', data)], unsafe=True, mdstyle='short')], ['uy', copy_place],
+            ['uz', tdoc.mp([('v', tdoc.raw('uy', '!xref'))], flow=True, tag='!call:vfrec.call_91')]]
     pre = draw(st.lists(S.tagged_stages(min_stages=1, max_stages=1, keys=S.MERGE_KEYS_NONEG, neg=False, density=3).map(lambda l: l[0]), max_size=2))
     post = draw(st.lists(S.tagged_stages(min_stages=1, max_stages=1, keys=S.MERGE_KEYS_NONEG, neg=False, density=3, notnew=True).map(lambda l: l[0]), max_size=2))
     return {'doc': doc, 'pre': pre, 'post': post, 'structural': structural}
